@@ -255,6 +255,23 @@ class _Run:
                          "%s %s: object built by constructor from the parsed attributes "
                          "marshals as %s, expected %s" % (cls, label, G._short(mc),
                                                           G._short(cw)), w)
+            # keyword-only payload given to the constructor as args=None (as the type hints allow):
+            # the wire form must still carry a list in the Arguments position and parse back
+            if kw.get("kwargs") and "args" in kw and not kw.get("args"):
+                kw2 = dict(kw)
+                kw2["args"] = None
+                m2 = K(**kw2).marshal()
+                self.count("ctor_kwargs_only")
+                if any(x is None for x in m2):
+                    self.bad("ctor-kwargs-only-null-arguments", cls, "args", None,
+                             "%s(args=None, kwargs=%r).marshal() = %s carries null in the "
+                             "Arguments position" % (cls, kw2["kwargs"], G._short(G.plain(m2))), w)
+                else:
+                    try:
+                        K.parse(_copy(G.plain(m2)))
+                    except Exception as e2:
+                        self.bad("ctor-kwargs-only-not-parsable", cls, type(e2).__name__, None,
+                                 "%s: %s" % (G._short(G.plain(m2)), e2), w)
         except Exception as e:
             cobj = None
             self.bad("ctor-exception", cls, type(e).__name__, None,
